@@ -27,12 +27,17 @@ fn main() {
         return;
     }
     if id == "fuzz-replay" {
-        // bpcheck fuzz-replay <decode|verify> <file>: run the target's oracle once on a saved input (no libFuzzer)
+        // bpcheck fuzz-replay <decode|verify> <file> [panic-only]: run the target's oracle once on a saved input (no libFuzzer)
         std::panic::set_hook(Box::new(|_| {}));
         let data = std::fs::read(&args[2]).expect("read input");
-        let r = std::panic::catch_unwind(|| match args[1].as_str() {
-            "decode" => bpv::fuzzdec::decode_target(&data),
-            _ => bpv::fuzzdec::verify_target(&data),
+        let panic_only = args.get(3).map(|s| s == "panic-only").unwrap_or(false);
+        let r = std::panic::catch_unwind(|| match (args[1].as_str(), panic_only) {
+            ("decode", false) => bpv::fuzzdec::decode_target(&data),
+            ("decode", true) => {
+                let _ = tari_bulletproofs_plus::ristretto::RistrettoRangeProof::from_bytes(&data);
+                Ok(())
+            },
+            (_, po) => bpv::fuzzdec::verify_target_mode(&data, po),
         });
         match r {
             Ok(Ok(())) => {
